@@ -259,6 +259,9 @@ def configs(tier):
         out.append(dict(part=1, dw=dw, tree=dec(4, [sub(stub(2), addr=4), sub(stub(2)), sub(stub(2))])))
         out.append(dict(part=1, dw=dw, tree=dec(4, [sub(stub(2), addr=8), sub(stub(2))])))
         out.append(dict(part=1, dw=dw, tree=dec(5, [sub(stub(3), align_to=3 + 0, addr=8), sub(stub(3)), sub(stub(3))])))
+        # refused adds whose sizes add up to the holes, last window ending at the top of the space (wave 9: C06_15)
+        out.append(dict(part=1, dw=dw, refusals=True, tree=dec(4, [sub(stub(1)), sub(stub(1)), sub(stub(2), addr=12)])))
+        out.append(dict(part=1, dw=dw, refusals=True, tree=dec(4, [sub(stub(0)), sub(stub(1)), sub(stub(2), addr=12)])))
         # nested decoders, two deep
         out.append(dict(part=1, dw=dw, tree=dec(5, [sub(stub(2)), sub(dec(3, [sub(stub(1)), sub(stub(2), name="x")])),
                                                     sub(stub(1), name="y")])))
